@@ -669,6 +669,32 @@ func (e *c11env) revocation() {
 				break
 			}
 		}
+		// and nothing but the absence of 'present' decides whether the loop runs: every
+		// test between the case and the loop, taken the other way, says the client still
+		// holds present (a flag computed earlier can be wrong about it)
+		okOnly := true
+		var prevN ast.Node = cs.Call
+		for cur := p.Parent(ha.File, cs.Call); cur != nil; cur = p.Parent(ha.File, cur) {
+			if _, isCC := cur.(*ast.CaseClause); isCC {
+				if _, isTS := p.Parent(ha.File, p.Parent(ha.File, cur)).(*ast.TypeSwitchStmt); isTS {
+					break
+				}
+			}
+			if ifs, isIf := cur.(*ast.IfStmt); isIf && (prevN == ast.Node(ifs.Body) || (ifs.Else != nil && prevN == ast.Node(ifs.Else))) {
+				stI, _ := ff.At(ifs.Cond)
+				if stI == nil {
+					stI = emptyState
+				}
+				other := ff.assume(stI, ifs.Cond, prevN != ast.Node(ifs.Body))
+				if other == nil || !other.HasFact(mkFact(true, "true", TCall("slices.Contains", e.cont, TField(ct, e.perms), TStr("present")), nil)) {
+					okOnly = false
+				}
+			}
+			prevN = cur
+		}
+		c.Check(okOnly, "R11.3", "losing present closes the up-streams whatever else is known", cs.Call.Pos(),
+			"the only test that can skip the loop is the presence of 'present' in the client's current permissions",
+			"closing the up-streams also depends on something other than the client's current permissions: a client that has lost 'present' and has been told so can keep publishing")
 		c.Check(okPush && okRange, "R11.3", "losing present closes every up-stream with push", cs.Call.Pos(),
 			"under !present, delUpConn(c, id, c.id, push=true) for every connection returned by getUpConns(c)",
 			"the revocation loop does not push the close of every up-stream (push argument not the constant true, or the loop is not over getUpConns(c))")
